@@ -22,7 +22,7 @@ import random
 import datetime
 import time
 
-from urllib.parse import urlsplit, quote, quote_plus, unquote, unquote_plus
+from urllib.parse import urlsplit, urljoin, quote, quote_plus, unquote, unquote_plus
 
 try:
     import simplejson as json
@@ -965,6 +965,16 @@ class Patron(object):
             else:
                 location = path
             splits = urlsplit(location)
+            if not splits.scheme or not splits.netloc:  # relative reference
+                # resolve against the url of the request that was redirected
+                host = self.requester.hostname
+                if host.find(u':') >= 0:  # ipv6
+                    host = u'[' + host + u']'
+                base = u"{0}://{1}:{2}{3}".format(self.requester.scheme,
+                                                  host,
+                                                  self.requester.port,
+                                                  self.requester.path)
+                splits = urlsplit(urljoin(base, location))
             hostname = splits.hostname
             port = splits.port
             scheme = splits.scheme
@@ -976,7 +986,7 @@ class Patron(object):
                 secured = False # non tls socket connection
                 defaultPort = 80
             hostname, port = httping.normalizeHostPort(hostname, port=port, defaultPort=defaultPort)
-            path = splits.path
+            path = splits.path or u'/'
             query = splits.query
             fragment = splits.fragment
 
@@ -990,7 +1000,7 @@ class Patron(object):
                                       "host '{0}'".format(location))
                 self.connector.close()
                 if secured:
-                    context = getattr(self.connector, 'context')
+                    context = getattr(self.connector, 'context', None)  # None when upgrading from http
                     connector = ClientTls(store=self.connector.store,
                                            name=self.connector.name,
                                            uid=self.connector.uid,
